@@ -78,7 +78,7 @@ fn finish(with_rem: bool, s: &Arc<Schema>, emitted: Outcome, dynamic: Outcome, o
     // validates UTF-8 (`sc_merge_repeated` re-converts the whole accumulator and so turns an earlier
     // non-UTF-8 element into ""): once the emitted value holds a non-UTF-8 string (reported above)
     // the dynamic message is not a reference any more.
-    if !same && badstr.is_empty() { o.fail("C05,C10", format!("emitted decode differs from dynamic message decode: emitted {} dynamic {}", show(&emitted), show(&dynamic))); }
+    if !same && badstr.is_empty() { o.fail("C05,C10,C18", format!("emitted decode differs from dynamic message decode: emitted {} dynamic {}", show(&emitted), show(&dynamic))); }
     match emitted {
         Ok((m, rem)) => if with_rem { format!("ok {} rem={}", m_sexp(&m), rem) } else { format!("ok {}", m_sexp(&m)) },
         Err(e) => class(&e),
